@@ -15,6 +15,7 @@ from .lib import *
 
 EXPLANATION = "Field provenance of the WalkOptions literal in ModuleGraph::segment (T4), arm table of the copy loop (T8), guard of the clone shortcut (T5)."
 NOT_DECIDED = "equality with a direct build of the roots"
+CONFIGS = ["default", "nofastcheck"]  # thorough tier also analyses the build without fast_check / symbols
 ASSUMPTIONS = []
 
 
@@ -75,3 +76,16 @@ def run(F, R, tier):
     R.ob("C18-c", "segment carries over has_node_specifier", len(a) == 1, "flag not copied", sg["file"])
     a = [n for n in sg["_nodes"] if n["k"] == "Assign" and peel(n["l"]).get("field") == "roots"]
     R.ob("C18-c", "segment's roots are the requested roots", len(a) == 1 and "roots" in expr_text(a[0]["r"]), "roots not assigned", sg["file"])
+
+    # the segment copies only what the walk yields: every hop of a redirect chain must be yielded
+    nx = F.body("<graph::ModuleEntryIterator as std::iter::Iterator>::next")
+    ms = [n for n in nx["_nodes"] if n["k"] == "Match" and "previous_module" in expr_text(n["scrut"])]
+    ok = False
+    for m in ms:
+        for arm in m["arms"]:
+            if "ModuleEntryRef::Redirect" in pat_text(arm["pat"]):
+                binds = {b_["lid"] for b_ in pat_bindings(arm["pat"])}
+                ps = [n for n in walk(arm["body"]) if n.get("k") == "MethodCall" and n["name"].startswith("push")]
+                ok = len(ps) == 1 and peel_value(ps[0]["args"][0]).get("lid") in binds
+    R.ob("C18-b", "the walk that feeds the segment yields every hop of a redirect chain", ok,
+         "the walker jumps from a redirect entry to something other than the redirect's own target: hops in between are never yielded, so the segment loses their redirects", nx["file"])
